@@ -8,7 +8,7 @@
    transformation() followed by conversion_surface_params(). *)
 From Coq Require Import List ZArith Bool Reals.
 From T4V Require Import Base.Scalar C04.Vec C04.Model C04.Spec C04.ProofsFrame C04.ProofsConvert
-  C04.ProofsQuad C04.ProofsSurf.
+  C04.ProofsQuad C04.ProofsSurf C04.ProofsMatrix C04.ProofsCard.
 Import ListNotations.
 Open Scope R_scope.
 
@@ -73,3 +73,130 @@ Theorem C04_frame_transform_cone_sheet : forall (o : R3) (b : M3 R) apex u c0 a 
     (mpos s p' <-> coll_pos [(cone, 1%Z); (plane, side)] (to_main o b p')).
 Proof. exact frame_transform_cone_sheet. Qed.
 Print Assumptions C04_frame_transform_cone_sheet.
+
+(* ---------- abbreviated matrices ([rotation] = orthonormal rows, det = 1;
+   [agrees pat b] = every supplied entry of the pattern is unchanged) ---------- *)
+Theorem C04_normalize_matrix_9_reproduces : forall b : M3 R,
+  normalize_matrix RS (map Some (mlist b)) = Ok (mlist b).
+Proof. exact normalize_matrix_9. Qed.
+Print Assumptions C04_normalize_matrix_9_reproduces.
+
+(* two rows given (at i+1, i+2 mod 3), orthonormal: the missing row is completed *)
+Theorem C04_normalize_matrix_6_reproduces : forall (i : nat) (r0 r1 : R3), (i < 3)%nat ->
+  norm2 r0 = 1 -> norm2 r1 = 1 -> dot r0 r1 = 0 ->
+  let pat := place3 i none3 (somev r0) (somev r1) in
+  exists b, normalize_matrix RS (mlist pat) = Ok (mlist b) /\ rotation b /\ agrees pat b.
+Proof. exact normalize_matrix_6_rows. Qed.
+Print Assumptions C04_normalize_matrix_6_reproduces.
+
+Theorem C04_normalize_matrix_6_cols_reproduces : forall (i : nat) (c0 c1 : R3), (i < 3)%nat ->
+  norm2 c0 = 1 -> norm2 c1 = 1 -> dot c0 c1 = 0 ->
+  let pat := transpose (place3 i none3 (somev c0) (somev c1)) in
+  exists b, normalize_matrix RS (mlist pat) = Ok (mlist b) /\ rotation b /\ agrees pat b.
+Proof. exact normalize_matrix_6_cols. Qed.
+Print Assumptions C04_normalize_matrix_6_cols_reproduces.
+
+(* one unit row (at i) or column, different from (-1,0,0) *)
+Theorem C04_normalize_matrix_3_reproduces : forall (i : nat) (r : R3), (i < 3)%nat ->
+  norm2 r = 1 -> vx r <> -1 ->
+  let pat := place3 i (somev r) none3 none3 in
+  exists b, normalize_matrix RS (mlist pat) = Ok (mlist b) /\ rotation b /\ agrees pat b.
+Proof. exact normalize_matrix_3_rows. Qed.
+Print Assumptions C04_normalize_matrix_3_reproduces.
+
+Theorem C04_normalize_matrix_3_cols_reproduces : forall (i : nat) (c : R3), (i < 3)%nat ->
+  norm2 c = 1 -> vx c <> -1 ->
+  let pat := transpose (place3 i (somev c) none3 none3) in
+  exists b, normalize_matrix RS (mlist pat) = Ok (mlist b) /\ rotation b /\ agrees pat b.
+Proof. exact normalize_matrix_3_cols. Qed.
+Print Assumptions C04_normalize_matrix_3_cols_reproduces.
+
+(* genuine defect (open finding matrix3_row_minus_ex): the guard vx r <> -1 cannot be dropped *)
+Theorem C04_matrix3_row_minus_ex_refuted :
+  exists r : R3, norm2 r = 1 /\
+    normalize_matrix RS (mlist (place3 0 (somev r) none3 none3)) = Err EZeroDiv.
+Proof. exact matrix3_row_minus_ex_refuted. Qed.
+Print Assumptions C04_matrix3_row_minus_ex_refuted.
+
+(* MCNP's internal tweak leaves an orthonormal matrix (proper or not) alone;
+   clip_ok: entries are 0 or at least 1e-10 in magnitude *)
+Theorem C04_adjust_matrix_fixpoint : forall m : M3 R,
+  rows_orthonormal m -> clip_ok_m m -> adjust_matrix RS (mlist m) = Ok (mlist m).
+Proof. exact adjust_matrix_fixpoint. Qed.
+Print Assumptions C04_adjust_matrix_fixpoint.
+
+(* ---------- cards ---------- *)
+Theorem C04_to_cos_deg : forall a : R, to_cos RS a = cos (a * PI / 180).
+Proof. exact to_cos_deg. Qed.
+Print Assumptions C04_to_cos_deg.
+
+Theorem C04_tr_card_3 : forall (star : bool) (o : R3),
+  tr_card RS star (map Some (vlist o)) = Ok (vlist o ++ mlist (idm RS)).
+Proof. exact tr_card_3. Qed.
+Print Assumptions C04_tr_card_3.
+
+Theorem C04_tr_card_12 : forall (o : R3) (b : M3 R),
+  rows_orthonormal b -> clip_ok_m b ->
+  tr_card RS false (map Some (vlist o ++ mlist b)) = Ok (vlist o ++ mlist b) /\
+  tr_card RS false (map Some (vlist o ++ mlist b ++ [1])) = Ok (vlist o ++ mlist b).
+Proof. exact tr_card_12. Qed.
+Print Assumptions C04_tr_card_12.
+
+Theorem C04_tr_card_star_12 : forall (o : R3) (ang : M3 R),
+  let b := vmap (vmap (fun a => cos (a * PI / 180))) ang in
+  rows_orthonormal b -> clip_ok_m b ->
+  tr_card RS true (map Some (vlist o ++ mlist ang)) = Ok (vlist o ++ mlist b) /\
+  tr_card RS true (map Some (vlist o ++ mlist ang ++ [1])) = Ok (vlist o ++ mlist b).
+Proof. exact tr_card_star_12. Qed.
+Print Assumptions C04_tr_card_star_12.
+
+(* 13 entries with m <> 1: rejected on TR, *TR, inline TRCL / *TRCL, inline FILL / *FILL
+   (DESIGN §8 #6, repaired in 0ff2a3e / 6199994) *)
+Theorem C04_m1_only : forall (star : bool) (l : list R) (m : R) trs trid,
+  List.length l = 12%nat -> m <> 1 ->
+  tr_card RS star (map Some (l ++ [m])) = Err ETransformation /\
+  parse_trcl RS star (l ++ [m]) trs trid = Err ETransformation /\
+  parse_fill_tr RS star (l ++ [m]) trs trid = Err ETransformation.
+Proof. exact m1_only. Qed.
+Print Assumptions C04_m1_only.
+
+(* inline TRCL=(12 or 13 numbers) and FILL=u (12 numbers): the numbers themselves
+   (DESIGN §8 #5, repaired in 0ff2a3e) *)
+Theorem C04_inline_12 : forall (o : R3) (b : M3 R) trs trid,
+  rows_orthonormal b -> clip_ok_m b ->
+  parse_trcl RS false (vlist o ++ mlist b) trs trid = Ok (vlist o ++ mlist b) /\
+  parse_trcl RS false (vlist o ++ mlist b ++ [1]) trs trid = Ok (vlist o ++ mlist b) /\
+  parse_fill_tr RS false (vlist o ++ mlist b) trs trid = Ok (vlist o ++ mlist b).
+Proof. exact inline_12. Qed.
+Print Assumptions C04_inline_12.
+
+Theorem C04_inline_number : forall star (n : R) trs trid tr,
+  lookup trid trs = Ok tr -> List.length tr = 12%nat ->
+  parse_trcl RS star [n] trs trid = Ok tr.
+Proof. exact inline_number. Qed.
+Print Assumptions C04_inline_number.
+
+(* ---------- implicit surfaces ---------- *)
+(* a reference of either sign (DESIGN §8 #4, repaired in 93671ff) *)
+Theorem C04_implicit_surface : forall (refs : list Z) cells surfs table (r : Z),
+  In r refs -> (1000 <= Z.abs r)%Z -> zmem (Z.abs r) (map fst surfs) = false ->
+  surface_table RS refs cells surfs = Ok table ->
+  exists v, implicit_surface RS cells surfs (Z.abs r) = Ok v /\ resolve_ref r table = Ok v.
+Proof. exact implicit_surface_resolved. Qed.
+Print Assumptions C04_implicit_surface.
+
+Theorem C04_implicit_surface_value : forall cells surfs (id : Z) tr ss,
+  lookup (id / 1000)%Z cells = Ok [tr] -> lookup (id mod 1000)%Z surfs = Ok ss ->
+  implicit_surface RS cells surfs id
+  = map_res (fun sd => rmap (fun s' => (s', snd sd)) (transformation RS tr (fst sd))) ss.
+Proof. exact implicit_surface_value. Qed.
+Print Assumptions C04_implicit_surface_value.
+
+(* ---------- genuine defect: SQ under a transformation (open finding) ---------- *)
+Theorem C04_sq_under_transformation_refuted :
+  exists (s : msurf R) (o : R3) (b : M3 R) (p' : R3) c,
+    mk s = KSQ /\ rows_orthonormal b /\
+    tr_convert RS (vlist o ++ mlist b) s = Ok [(c, 1%Z)] /\
+    msense s p' < 0 /\ 0 < t4val c (to_main o b p').
+Proof. exact sq_under_transformation_refuted. Qed.
+Print Assumptions C04_sq_under_transformation_refuted.
